@@ -5,8 +5,9 @@ Proof: Props/C10.v (Model/Frame.v, Proofs/FrameProofs.v).  Tie:
      a localhost TcpStream pair with a real Aes128Gcm, against the extracted receiver automaton on the
      same manipulation script, for every (manipulation, frame index <= 12, direction);
  (b) end to end: the real binaries through a fake ssh that is also a man in the middle on the TCP link;
-     the doer's command log and the exit status are observed; a doer started directly is attacked by a
-     peer that does not hold the key;
+     the doer's command log and the exit status are observed; with both doers remote frames are moved
+     between the two links of the run (and the two links' keys compared); a doer started directly is
+     attacked by a peer that does not hold the key;
  (c) the nonce actually used by every captured real frame is recovered by trial decryption.
 The property oracle (frames_lib.oracle, e2e oracles below) is written from the property text and is
 evaluated on what the implementation did."""
@@ -14,7 +15,7 @@ import os, sys, json, tempfile, shutil, struct, time
 import vlib
 import frames_lib as fl
 
-THEOREMS = ['C10_prefix', 'C10_fails_at_first_deviation', 'C10_deviating_frame_rejected', 'C10_oversize_length_panics', 'C10_nonces_distinct',
+THEOREMS = ['C10_prefix', 'C10_fails_at_first_deviation', 'C10_deviating_frame_rejected', 'C10_foreign_session_frame_rejected', 'C10_oversize_length_panics', 'C10_nonces_distinct',
             'C10_no_nonce_reuse', 'C10_no_key_no_command', 'C10_reflection_only_no_command', 'C10_segmentation',
             'C14_stream', 'C10_refuted_without_bump', 'C10_code_advances_counter', 'C10_buffer_matches_code',
             'C10_premises_satisfiable']
@@ -303,10 +304,13 @@ def setup(run):
         'tools/mitm_proxy.py, the fake ssh and the python manipulation scripts (a bug there can hide a disagreement, not make a false theorem check)']
     run.assumptions = ['H1: what an honest end sealed under the session key opens to the same plaintext under the same nonce',
                        'H2 (ideal authenticity): a ciphertext that opens under the session key and nonce n was sealed by an honest end with nonce n',
-                       'the session key is known to the boss and its doer only (generated per doer, sent over ssh stdin)']
+                       'the session key is known to the boss and its doer only and used for this one link only (generated per doer launch, sent over ssh stdin); '
+                       'the tie checks the second half on both-remote runs (cross-link leg, key comparison)']
     run.extra['rule'] = ('unit: every (manipulation in %d kinds, frame index 0..12, direction) on a 14-message history per direction (x5 histories in thorough), '
                          'random TCP segmentation incl. byte-by-byte, through the real receive loop and through the real receiving thread; '
                          'a case is non-trivial when the stream was manipulated; e2e: one manipulation of one frame of a real remote sync per run; '
+                         'cross-link: both doers remote, frame i of direction d of one link delivered in place of frame i of direction d of the other link '
+                         '(either session, both directions, i = 0..3, thorough 0..7), keys of the two links compared and cross trial decryption; '
                          'distinct by (key, history, direction, manipulation, segmentation, mode)' % (len(fl.OPS) - 1))
     binary = vlib.build_impl()
     vlib.regen_facts(binary)
